@@ -16,6 +16,8 @@ pub fn compact_graph<IntT: for<'a> UInt<'a>>(
 
     // from start k-mers
     start_kmers.par_iter().for_each(|kmer| {
+        #[cfg(feature = "verif-hooks")]
+        crate::verif_hooks::sched_point(5);
         if let Some(starting_kmers) = all_kmers.get(kmer) {
             for starting_kmer in starting_kmers.iter() {
                 let mut current_kmer = *starting_kmer;
@@ -53,6 +55,8 @@ pub fn compact_graph<IntT: for<'a> UInt<'a>>(
 
     // from end k-mers
     end_kmers.par_iter().for_each(|kmer| {
+        #[cfg(feature = "verif-hooks")]
+        crate::verif_hooks::sched_point(6);
         if let Some(starting_kmers) = all_kmers.get(kmer) {
             for starting_kmer in starting_kmers.iter() {
                 let mut current_kmer = *starting_kmer;
